@@ -573,6 +573,23 @@ func blkDistinct(a, b *Term) bool {
 	return false
 }
 
+// freshVsEntry (block dimension of the heaps only): c is the block of an object allocated by the function under
+// verification (a constant in the local or spec-temporary range) and p is a block loaded from the entry heap
+// (plus a sub-block tag): nothing in the entry heap can point to an object that did not exist yet.
+func freshVsEntry(c, p *Term) bool {
+	if c.Op != "const" || c.Val.Cmp(big.NewInt(0x1000)) < 0 || c.Val.Cmp(big.NewInt(0x8000000)) >= 0 {
+		return false
+	}
+	base, k := linear(p)
+	if base == nil || k.Cmp(big.NewInt(4096)) >= 0 {
+		return false
+	}
+	if base.Op == "select" && base.Args[0].Op == "select" && base.Args[0].Args[0].Op == "var" && strings.HasPrefix(base.Args[0].Args[0].Name, "H0!") {
+		return true
+	}
+	return false
+}
+
 func Eq(a, b *Term) *Term {
 	if a == b {
 		return True()
@@ -925,7 +942,7 @@ func select1(arr, idx *Term) *Term {
 			if arr.Args[1] == idx {
 				return arr.Args[2]
 			}
-			if knownDistinct(arr.Args[1], idx) {
+			if knownDistinct(arr.Args[1], idx) || (idx.S.W == 32 && (freshVsEntry(arr.Args[1], idx) || freshVsEntry(idx, arr.Args[1]))) {
 				arr = arr.Args[0]
 				continue
 			}
